@@ -14,11 +14,19 @@ import (
 func colNormsBelow(a *ref.M, offset int) []float64 {
 	v := make([]float64, a.C)
 	for j := 0; j < a.C; j++ {
+		var mx float64
+		for i := offset; i < a.R; i++ {
+			mx = math.Max(mx, math.Abs(a.D[i*a.C+j]))
+		}
+		if mx == 0 {
+			continue
+		}
 		var s float64
 		for i := offset; i < a.R; i++ {
-			s += a.D[i*a.C+j] * a.D[i*a.C+j]
+			t := a.D[i*a.C+j] / mx
+			s += t * t
 		}
-		v[j] = math.Sqrt(s)
+		v[j] = mx * math.Sqrt(s)
 	}
 	return v
 }
@@ -71,7 +79,7 @@ func (cs *Case) checkPartialQR(routine, tag, what string, a, out *ref.M, jpvt []
 	}
 	mm := m - offset
 	cs.band(routine, tag, "qr-orthogonality", ref.OrthoResid(q), float64(mm)*eps, func() string { return what })
-	cs.band(routine, tag, "qr-reconstruction", ref.MaxDiff(subRows(ap, offset, m), ref.Mul(q, t)), float64(mm)*eps*a.NormFro(), func() string { return what })
+	cs.band(routine, tag, "qr-reconstruction", ref.MaxDiff(subRows(ap, offset, m), ref.Mul(q, t)), float64(mm)*(eps*a.NormFro()+subFloor), func() string { return what })
 }
 
 // qp3Classes are the input classes of the pivoted-QR checks. Beyond the
